@@ -85,7 +85,7 @@ func C10(c *Ctx) {
 	r.Explanation = "(A1) bank movements naming the stream module account and writes/deletes of the stream section are reachable only from the stream MsgServer (and genesis import for the section); " +
 		"(A3) pairing with one origin: top-up sends NewCoins(d) from the sender to the module before storing Deposit := Deposit.Add(d) on every success path; a claim pays the fee collector and the receiver the two results of the fee-split function applied to the claim total, stores Deposit := the remaining-deposit result of the claim-amount function applied to the stored deposit, the payouts being skipped only on amount == 0; cancel settles first, refunds the reloaded remaining deposit to the sender and deletes the stream on every success path; " +
 		"(affine split) both pure split functions return, on every return edge, two coins whose sum is syntactically the input (X−Y with Y, or X with a zero coin); (A5/A2) the stream account is a blocked recipient and stream creation rejects blocked receivers; genesis import returns only when balances equal Σ deposits; (A8) no bank error is dropped. Σ-over-streams and rounding are not decided."
-	r.Rules = []string{"A1.escrow-moves", "A1.stream-writers", "A3.topup-pairing", "A3.claim-pairing", "A3.cancel-pairing", "AFF.split", "A5.blocked-addresses", "A2.blocked-receiver", "A2.genesis-balance", "A8.bank-errors"}
+	r.Rules = []string{"A1.escrow-moves", "A1.stream-writers", "A3.topup-pairing", "A3.claim-pairing", "A3.cancel-pairing", "AFF.split", "A5.blocked-addresses", "A2.blocked-receiver", "A3.no-stale-writeback", "A2.genesis-balance", "A8.bank-errors"}
 	r.Trusted = []string{"bank transfers move exactly the given coins or fail", "bank refuses transfers to blocked addresses", "sdk.Coin Add/Sub arithmetic"}
 	r.NotDecided = []string{"escrow == Σ deposits as a numeric invariant over histories", "floor rounding of the validator fee"}
 
@@ -117,6 +117,25 @@ func C10(c *Ctx) {
 	}
 	genesisBalance(c, "stream")
 	bankErrors(c, "stream")
+	// no lost update of a stream record (a stale Deposit written back re-creates funds the settlement already paid out)
+	ns := staleWriteback(c, "A3.no-stale-writeback", moduleFuncs(c, "stream"), secStreams, "stream")
+	r.Floor("stream write-backs of a read record", ns, 2)
+}
+
+// moduleFuncs: the non-generated functions of x/<m>/keeper and x/<m> (handlers, genesis, blockers).
+func moduleFuncs(c *Ctx, m string) []*ssa.Function {
+	var out []*ssa.Function
+	for _, f := range c.W.Funcs {
+		if c.W.IsGenerated(f) || ir.IsFixture(f) || ir.FnPkg(f) == nil {
+			continue
+		}
+		rel := ir.RelPkg(ir.FnPkg(f).Path())
+		if rel == "x/"+m+"/keeper" || rel == "x/"+m {
+			out = append(out, f)
+		}
+	}
+	sortFuncs(out)
+	return out
 }
 
 // streamWriter finds the keeper function (not the handler) whose own body both performs a bank
@@ -410,7 +429,7 @@ func C11(c *Ctx) {
 	r.Explanation = "(A3, guarded ordering) whenever the stored deposit is positive, the settlement claim precedes: the store of a new FlowRate, the refund on cancel, and — for an expired stream — the deposit transfer of a top-up; LastOutflowTime is written only by the claim step and at creation, both with the block time (A4); " +
 		"(A2) stream creation is guarded by not(duration < 60) in the handler and in ValidateBasic, with duration computed from the message's deposit and flow rate; " +
 		"(A9, sink-scoped hazard inventory) in every stream function reachable from the stream MsgServer: no floating-point operation or conversion; every int64*int64 and Duration*Duration product and every int64→uint64 conversion of a computed value is an obligation that must be range-guarded. The payout formula itself is numeric and not decided."
-	r.Rules = []string{"A3.settle-before-change", "A4.last-outflow-writers", "A2.min-duration", "A7.stream-fields", "A7.elapsed-seconds", "A9.float", "A9.int-mul", "A9.duration-mul", "A9.narrowing"}
+	r.Rules = []string{"A3.settle-before-change", "A3.restart-resets-outflow", "A4.last-outflow-writers", "A2.min-duration", "A7.stream-fields", "A7.elapsed-seconds", "A9.float", "A9.int-mul", "A9.duration-mul", "A9.narrowing"}
 	r.Trusted = []string{"time.Time arithmetic", "sdk.Int arbitrary precision"}
 	r.NotDecided = []string{"min(remaining, rate x seconds) payout formula", "deposit-zero-time formula", "sufficiency of the remaining deposit until the advertised time"}
 
@@ -510,10 +529,85 @@ func C11(c *Ctx) {
 			}
 		}
 	}
+	restartResetsOutflow(c, isClaimIn)
 	minDuration(c)
 	streamFields(c)
 	elapsedSeconds(c)
 	streamHazards(c)
+}
+
+// restartResetsOutflow (A3.restart-resets-outflow): whenever a stream's deposit-zero time is recomputed
+// from the block time (now + duration: the schedule restarts now), the stored LastOutflowTime must be the
+// block time as well — through the settlement claim, or by a direct assignment — before the stream is
+// stored. Otherwise the next claim multiplies the flow rate by time the stream spent unfunded and the
+// receiver can drain the new deposit before the advertised deposit-zero time (finding F7).
+func restartResetsOutflow(c *Ctx, isClaimIn func(*ssa.Function) func(ssa.Instruction) bool) {
+	w, r := c.W, c.R
+	n := 0
+	for _, f := range w.Funcs {
+		if ir.ModuleOf(f) != "stream" || !c.Rooted(f) || w.IsGenerated(f) || w.IsRoot(f) || ir.IsFixture(f) {
+			continue
+		}
+		isSet := callReaching(c, f, func(e ir.Effect) bool { return e.Kind == "StoreWrite" && e.Section == secStreams })
+		claim := isClaimIn(f)
+		var writers []ssa.Instruction
+		for _, s := range findInstrs(f, isSet) {
+			if !claim(s) {
+				writers = append(writers, s)
+			}
+		}
+		if len(writers) == 0 {
+			continue
+		}
+		reset := func(in ssa.Instruction) bool {
+			if claim(in) {
+				return true
+			}
+			st, ok := in.(*ssa.Store)
+			if !ok {
+				return false
+			}
+			fa, ok := st.Addr.(*ssa.FieldAddr)
+			if !ok || fieldAddrName(fa) != "LastOutflowTime" {
+				return false
+			}
+			return isBlockTime(w.ExprOf(st.Val))
+		}
+		for _, b := range f.Blocks {
+			for _, in := range b.Instrs {
+				call, ok := in.(*ssa.Call)
+				if !ok {
+					continue
+				}
+				e := w.ExprOf(call)
+				if !(calleeIs(e, "time.Time).Add") && len(e.Args) == 2 && isBlockTime(e.Args[0])) {
+					continue
+				}
+				n++
+				bad := ""
+				if ir.ReachesFrom(f, f.Blocks[0], 0, in, ir.Cut{Barrier: reset}) {
+					for _, wr := range writers {
+						if ir.ReachesFrom(f, in.Block(), ir.InstrIndex(in)+1, wr, ir.Cut{Barrier: reset}) {
+							bad = "the stream is stored at " + w.InstrPos(wr) + " with a deposit-zero time counted from now, on a path with neither a settlement nor LastOutflowTime = block time"
+						}
+					}
+				}
+				r.Require(bad == "", "A3.restart-resets-outflow", fn(f)+"|"+fmt.Sprint(n), pos(c, in), "a schedule restarted from the block time (DepositZeroTime = now + duration) also restarts LastOutflowTime at the block time", bad)
+			}
+		}
+	}
+	r.Floor("deposit-zero times recomputed from the block time", n, 2)
+}
+
+func fieldAddrName(fa *ssa.FieldAddr) string {
+	t := fa.X.Type()
+	if p, ok := t.Underlying().(*types.Pointer); ok {
+		t = p.Elem()
+	}
+	if st, ok := t.Underlying().(*types.Struct); ok && fa.Field < st.NumFields() {
+		return st.Field(fa.Field).Name()
+	}
+	return ""
 }
 
 // elapsedSeconds: the claim amount is NewCoin(denom, seconds x flowRate) where seconds is the
